@@ -569,7 +569,13 @@ pub fn t_graph(a: &[i64]) -> Val {
         rotated.push(defs_m[(r + order) % len].clone());
         r += 1;
     }
-    let mm = M::new().with_uses([IP::from("n")]).with_definitions(rotated);
+    // module n always defines `T0x` and m imports it by name: a type import whose name merely starts with another
+    // type's name must not capture lookups of that other name
+    defs_n.push(ID::new(
+        (V::Public, "T0x"),
+        TD::new([TS::field((V::Public, "s"), T::ident(if ps == 8 { "u64" } else { "u32" }))]),
+    ));
+    let mm = M::new().with_uses([IP::from("n"), IP::from("n::T0x")]).with_definitions(rotated);
     let mn = M::new().with_uses([IP::from("m")]).with_definitions(defs_n);
     let mut st = SemanticState::new(ps);
     // module addition order is part of `order` as well
@@ -589,7 +595,8 @@ pub fn t_graph(a: &[i64]) -> Val {
 // t_scope: which definition does the name `S` (or a built-in name) denote in module `a`? (C11)
 // a = [ps, name_kind(0 => "S", 1 => "u32"), def_a, def_b, def_xy, def_c, nuses, then uses u0..u3]
 // def_*: 1 => that module defines the name (sizes: a:8, b:12, x::y:16, c:20 bytes via extern types of that size, align 4)
-// use codes: 0 none, 1 `use b::S`, 2 `use x::y::S`, 3 `use b` (module), 4 `use x::y`, 5 `use c::S`, 6 `use c`, 7 `use zz` (no such module)
+// use codes: 0 none, 1 `use b::S`, 2 `use x::y::S`, 3 `use b` (module), 4 `use x::y`, 5 `use c::S`, 6 `use c`, 7 `use zz` (no such module),
+//            8 `use b::S2` (another type of b whose name starts with the looked-up name)
 pub fn t_scope(a: &[i64]) -> Val {
     let ps = a[0] as usize;
     let name = if a[1] != 0 { "u32" } else { "S" };
@@ -608,6 +615,7 @@ pub fn t_scope(a: &[i64]) -> Val {
             5 => uses.push(IP::from("c").join(name.into())),
             6 => uses.push(IP::from("c")),
             7 => uses.push(IP::from("zz")),
+            8 => uses.push(IP::from("b").join(format!("{}2", name).as_str().into())),
             _ => {}
         }
         i += 1;
@@ -621,11 +629,16 @@ pub fn t_scope(a: &[i64]) -> Val {
     }
     let mut st = SemanticState::new(ps);
     let mut mods: Vec<(M, &str)> = vec![(ma, "a")];
+    // b always declares `<name>2` (size 24): importing it by name (use code 8) must never capture `<name>`
+    let name2 = format!("{}2", name);
+    let mut b_ext: Vec<(grammar::Ident, As)> = vec![(
+        name2.as_str().into(),
+        As::from(vec![A::integer_fn("size", 24), A::integer_fn("align", 4)]),
+    )];
     if a[3] != 0 {
-        mods.push((M::new().with_extern_types(ext(12)), "b"));
-    } else {
-        mods.push((M::new(), "b"));
+        b_ext.extend(ext(12));
     }
+    mods.push((M::new().with_extern_types(b_ext), "b"));
     if a[4] != 0 {
         mods.push((M::new().with_extern_types(ext(16)), "x::y"));
     } else {
@@ -849,6 +862,250 @@ pub fn t_extern(a: &[i64]) -> Val {
     build_one(ps, &m)
 }
 
+
+// ------------------------------------------------------------------------------------------------
+// t_nest: sizes and alignments across types (C02).
+//   extern X (ext_size, ext_align);  type I { x: [X; ci] } with optional size/align/packed;
+//   enum En: <base>;  type O { f0: <I by value | [I; co] | *const I>, e: En, tail: unknown<pad> } with optional address on
+//   `e` and optional size/align.
+// a = [ps, ext_size, ext_align, ci, i_has_size, i_size, i_has_align, i_align, i_packed,
+//      o_kind(0 value, 1 pointer, 3 array), co, e_base(0..7), e_has_addr, e_addr, pad, o_has_size, o_size, o_has_align, o_align]
+pub fn t_nest(a: &[i64]) -> Val {
+    let ps = a[0] as usize;
+    let mut i_attrs: Vec<A> = vec![];
+    if a[4] != 0 {
+        i_attrs.push(A::integer_fn("size", a[5] as isize));
+    }
+    if a[6] != 0 {
+        i_attrs.push(A::integer_fn("align", a[7] as isize));
+    }
+    if a[8] != 0 {
+        i_attrs.push(A::packed());
+    }
+    let inner = ID::new(
+        (V::Public, "I"),
+        TD::new([TS::field((V::Public, "x"), T::ident("X").array(a[3] as usize))]).with_attributes(i_attrs),
+    );
+    let f0_ty = match a[9] {
+        0 => T::ident("I"),
+        1 => T::ident("I").const_pointer(),
+        _ => T::ident("I").array(a[10] as usize),
+    };
+    let base = a[11];
+    let en = ID::new(
+        (V::Public, "En"),
+        ED::new(
+            T::ident(ENUM_BASES[if base >= 0 && base < 8 { base as usize } else { 0 }]),
+            [ES::field("A"), ES::field("B")],
+            [],
+        ),
+    );
+    let mut e_st = TS::field((V::Public, "e"), T::ident("En"));
+    if a[12] != 0 {
+        e_st = e_st.with_attributes([A::integer_fn("address", a[13] as isize)]);
+    }
+    let mut o_attrs: Vec<A> = vec![];
+    if a[15] != 0 {
+        o_attrs.push(A::integer_fn("size", a[16] as isize));
+    }
+    if a[17] != 0 {
+        o_attrs.push(A::integer_fn("align", a[18] as isize));
+    }
+    let outer = ID::new(
+        (V::Public, "O"),
+        TD::new([
+            TS::field((V::Public, "f0"), f0_ty),
+            e_st,
+            TS::field((V::Public, "_"), T::unknown(a[14] as usize)),
+        ])
+        .with_attributes(o_attrs),
+    );
+    // O is declared before I on purpose: resolution order must not matter
+    let m = M::new()
+        .with_extern_types([(
+            "X".into(),
+            As::from(vec![A::integer_fn("size", a[1] as isize), A::integer_fn("align", a[2] as isize)]),
+        )])
+        .with_definitions([outer, inner, en]);
+    build_one(ps, &m)
+}
+
+
+// ------------------------------------------------------------------------------------------------
+// Product templates: the same (or an equivalent) description is built more than once in one run and all
+// outcomes are returned, so that a relational property becomes a property of one path.
+
+// t_order_graph: t_graph twice (C09): the interpreter gives the second build another hash-map iteration order.
+pub fn t_order_graph(a: &[i64]) -> Val {
+    Val::L(vec![t_graph(a), t_graph(a)])
+}
+
+// t_order_vft: generated vftable types referenced from signatures, built twice (C09).
+//   A { vftable { f(&self) }, x }   B { y }  impl B { #[address(16)] fn g(&self, p: ARG) }
+//   C { vftable { h(&self, q: ARG2) }, z }   extern ev: ARG3 at 32
+// a = [ps, arg, arg2, arg3, b_field]   kinds: 0 u32, 1 *const A, 2 *const AVftable, 3 *const CVftable, 4 *const BVftable (never exists)
+//   b_field: B additionally has a field of that kind (fields are retried, signatures are not)
+fn order_arg(k: i64) -> T {
+    match k {
+        0 => T::ident("u32"),
+        1 => T::ident("A").const_pointer(),
+        2 => T::ident("AVftable").const_pointer(),
+        3 => T::ident("CVftable").const_pointer(),
+        _ => T::ident("BVftable").const_pointer(),
+    }
+}
+pub fn t_order_vft(a: &[i64]) -> Val {
+    let ps = a[0] as usize;
+    let p8 = || T::ident("u8").const_pointer();
+    let mut b_stmts = vec![TS::field((V::Public, "y"), p8())];
+    if a[4] != 0 {
+        b_stmts.push(TS::field((V::Public, "w"), order_arg(a[4])));
+    }
+    let m = M::new()
+        .with_definitions([
+            ID::new(
+                (V::Public, "A"),
+                TD::new([TS::vftable([F::new((V::Public, "f"), [Ar::ConstSelf])]), TS::field((V::Public, "x"), p8())]),
+            ),
+            ID::new((V::Public, "B"), TD::new(b_stmts)),
+            ID::new(
+                (V::Public, "C"),
+                TD::new([
+                    TS::vftable([F::new((V::Public, "h"), [Ar::ConstSelf, Ar::named("q", order_arg(a[2]))])]),
+                    TS::field((V::Public, "z"), p8()),
+                ]),
+            ),
+        ])
+        .with_impls([FB::new(
+            "B",
+            [F::new((V::Public, "g"), [Ar::ConstSelf, Ar::named("p", order_arg(a[1]))])
+                .with_attributes([A::integer_fn("address", 16)])],
+        )])
+        .with_extern_values([EV::new(V::Public, "ev", order_arg(a[3]), [A::integer_fn("address", 32)])]);
+    Val::L(vec![build_one(ps, &m), build_one(ps, &m)])
+}
+
+// t_equiv: a description and a rewritten but equivalent description (C20).
+//   extern X0 (s0, al), X1 (s1, al);  type T { [vftable { v0; v1 }] f0: X0, <gap g>, f1: X1 }  enum E: i32 { A = e0, B, C }
+// a = [ps, s0, s1, al, g, e0, vft, r_addr0, r_gap, r_size, r_index, r_enum, r_order, r_addr1]
+//   r_addr0 : f0 gets the explicit address it already has          r_addr1: same for f1
+//   r_gap   : the gap is written as `_: unknown<g>` in the first description and as #[address] on f1 in the second
+//   r_size  : #[size(natural size)] added        r_index : #[index(1)] on v1      r_enum : `B = e0 + 1` written out
+//   r_order : the definitions of the module are listed in the opposite order
+pub fn t_equiv(a: &[i64]) -> Val {
+    let ps = a[0] as usize;
+    let (s0, s1, al, g, e0) = (a[1] as usize, a[2] as usize, a[3], a[4] as usize, a[5] as isize);
+    let vft = a[6] != 0;
+    let head = if vft { ps } else { 0 };
+    let off0 = head;
+    let off1 = head.wrapping_add(s0).wrapping_add(g);
+    let natural = off1.wrapping_add(s1);
+    let build = |rw: bool| -> Val {
+        let on = |i: usize| rw && a[i] != 0;
+        let mut stmts: Vec<TS> = vec![];
+        if vft {
+            let v1 = F::new((V::Public, "v1"), [Ar::ConstSelf]);
+            let v1 = if on(10) { v1.with_attributes([A::integer_fn("index", 1)]) } else { v1 };
+            stmts.push(TS::vftable([F::new((V::Public, "v0"), [Ar::ConstSelf]), v1]));
+        }
+        let f0 = TS::field((V::Public, "f0"), T::ident("X0"));
+        stmts.push(if on(7) { f0.with_attributes([A::integer_fn("address", off0 as isize)]) } else { f0 });
+        let f1 = TS::field((V::Public, "f1"), T::ident("X1"));
+        if a[8] != 0 {
+            // gap spelled as unknown<g> (first description) or as an address on f1 (second)
+            if rw {
+                stmts.push(f1.with_attributes([A::integer_fn("address", off1 as isize)]));
+            } else {
+                stmts.push(TS::field((V::Private, "_"), T::unknown(g)));
+                stmts.push(if on(13) { f1.with_attributes([A::integer_fn("address", off1 as isize)]) } else { f1 });
+            }
+        } else {
+            // the gap is an address on f1 in both descriptions
+            stmts.push(f1.with_attributes([A::integer_fn("address", off1 as isize)]));
+        }
+        let mut t_attrs = vec![A::integer_fn("align", al as isize)];
+        if on(9) {
+            t_attrs.push(A::integer_fn("size", natural as isize));
+        }
+        let td = ID::new((V::Public, "T"), TD::new(stmts).with_attributes(t_attrs));
+        let b = if on(11) { ES::field_with_expr("B", E::IntLiteral(e0.wrapping_add(1))) } else { ES::field("B") };
+        let ed = ID::new(
+            (V::Public, "E"),
+            ED::new(T::ident("i32"), [ES::field_with_expr("A", E::IntLiteral(e0)), b, ES::field("C")], []),
+        );
+        let defs = if on(12) { vec![ed, td] } else { vec![td, ed] };
+        let ext = |n: &str, sz: usize| -> (grammar::Ident, As) {
+            (n.into(), As::from(vec![A::integer_fn("size", sz as isize), A::integer_fn("align", al as isize)]))
+        };
+        let m = M::new().with_extern_types(vec![ext("X0", s0), ext("X1", s1)]).with_definitions(defs);
+        build_one(ps, &m)
+    };
+    Val::L(vec![build(false), build(true)])
+}
+
+// t_unrelated: module `m` (imports `n`) built without and with an unrelated module `u` (C19).
+//   n: extern S (size sn);  m: use n;  type R { f: S, p: *const R }  [vftable on R]  enum K: u32
+//   u: not imported by m or n.  It declares, per flag: a type named R (colliding short name), a type named S of another size,
+//      a type with a vftable named like R's table (RVftable), an enum K, and it may import m.
+// a = [ps, sn, r_vft, u_R, u_S, u_S_size, u_RVftable, u_K, u_uses_m, u_first]
+pub fn t_unrelated(a: &[i64]) -> Val {
+    let ps = a[0] as usize;
+    let mn = M::new().with_extern_types([(
+        "S".into(),
+        As::from(vec![A::integer_fn("size", a[1] as isize), A::integer_fn("align", 1)]),
+    )]);
+    let mut r_stmts: Vec<TS> = vec![];
+    if a[2] != 0 {
+        r_stmts.push(TS::vftable([F::new((V::Public, "f"), [Ar::ConstSelf])]));
+    }
+    r_stmts.push(TS::field((V::Public, "p"), T::ident("R").const_pointer()));
+    r_stmts.push(TS::field((V::Public, "f"), T::ident("S")));
+    let mm = M::new().with_uses([IP::from("n")]).with_definitions([
+        ID::new((V::Public, "R"), TD::new(r_stmts).with_attributes([A::packed()])),
+        ID::new((V::Public, "K"), ED::new(T::ident("u32"), [ES::field("A")], [])),
+    ]);
+    let mut u_defs: Vec<ID> = vec![];
+    let p8 = || T::ident("u8").const_pointer();
+    if a[3] != 0 {
+        u_defs.push(ID::new((V::Public, "R"), TD::new([TS::field((V::Public, "zz"), p8())])));
+    }
+    if a[6] != 0 {
+        u_defs.push(ID::new((V::Public, "RVftable"), TD::new([TS::field((V::Public, "zy"), p8())])));
+    }
+    if a[7] != 0 {
+        u_defs.push(ID::new((V::Public, "K"), ED::new(T::ident("u8"), [ES::field("Z")], [])));
+    }
+    let mut mu = M::new().with_definitions(u_defs);
+    if a[4] != 0 {
+        mu = mu.with_extern_types([(
+            "S".into(),
+            As::from(vec![A::integer_fn("size", a[5] as isize), A::integer_fn("align", 1)]),
+        )]);
+    }
+    if a[8] != 0 {
+        mu = mu.with_uses([IP::from("m")]);
+    }
+    let run = |with_u: bool| -> Val {
+        let mut st = SemanticState::new(ps);
+        let mut mods: Vec<(&M, &str)> = vec![];
+        if with_u && a[9] != 0 {
+            mods.push((&mu, "u"));
+        }
+        mods.push((&mm, "m"));
+        mods.push((&mn, "n"));
+        if with_u && a[9] == 0 {
+            mods.push((&mu, "u"));
+        }
+        for (m, p) in mods {
+            if let Err(e) = st.add_module(m, &IP::from(p)) {
+                return outcome(Err(e));
+            }
+        }
+        outcome(st.build())
+    };
+    Val::L(vec![run(false), run(true)])
+}
+
 pub type Template = fn(&[i64]) -> Val;
 pub const TEMPLATES: &[(&str, Template)] = &[
     ("t_predefined", t_predefined),
@@ -861,4 +1118,9 @@ pub const TEMPLATES: &[(&str, Template)] = &[
     ("t_inherit", t_inherit),
     ("t_items", t_items),
     ("t_extern", t_extern),
+    ("t_nest", t_nest),
+    ("t_order_graph", t_order_graph),
+    ("t_order_vft", t_order_vft),
+    ("t_equiv", t_equiv),
+    ("t_unrelated", t_unrelated),
 ];
